@@ -72,7 +72,8 @@ fn decode(c: &[u64]) -> Result<Sc, BadCase> {
         && (1..=MAXSZ).contains(&wchunk)
         && (n_in + n_out + n_err) / rchunk.min(wchunk) <= MAXSTEPS
         && (if ekind == 0 { earg <= 255 } else { ekind == 1 && SIGNALS.contains(&earg) })
-        && order <= 3
+        && order <= 5
+        && (order < 4 || (use_stdin == 1 && n_in == 0))
         && reuse <= 1
         && delay <= 500;
     if !ok {
@@ -247,14 +248,8 @@ async fn scenario(sc: Sc, pid: Arc<AtomicU32>) -> Result<Vec<u64>, Fail> {
     cmd.process_group(0); // own group, so that the watchdog can kill sh and its helpers
     let mut child = cmd.spawn().map_err(|e| (0, e))?;
     pid.store(child.id(), Ordering::SeqCst);
-    if std::env::var("C20_PROBE").is_ok() {
-        // probe: wait without taking stdin
-        let out = child.stdout.take().unwrap();
-        let err = child.stderr.take().unwrap();
-        let st = child.wait().await.map_err(|e| (4, e))?;
-        return Ok(vec![7, st.code().unwrap_or(256) as u64]);
-    }
-    let stdin = child.stdin.take();
+    // orders 4 and 5: ChildStdin stays inside the Child that wait consumes
+    let stdin = if sc.order >= 4 { None } else { child.stdin.take() };
 
     let mut so = Stats::new(Pat::In, Pat::Out, sc.n_in);
     let mut se = Stats::new(Pat::In, Pat::Err, 0);
@@ -331,8 +326,30 @@ async fn scenario(sc: Sc, pid: Arc<AtomicU32>) -> Result<Vec<u64>, Fail> {
             status = st.map_err(|e| (4, e))?;
             waited = wt;
         }
+        4 => {
+            // wait(self) while the Child still owns its ChildStdin: nobody else can
+            // close it any more, so the child (cat) sees end of file only if waiting
+            // closes it (as std::process::Child::wait documents)
+            let out = child.stdout.take().unwrap();
+            let err = child.stderr.take().unwrap();
+            let wait = async {
+                let r = child.wait().await;
+                (r, t0.elapsed())
+            };
+            let ((st, wt), a, b) = futures_util::join!(
+                wait,
+                drain(out, sc.rchunk, sc.reuse, &mut so, 1),
+                drain(err, sc.rchunk, sc.reuse, &mut se, 2)
+            );
+            a?;
+            b?;
+            written = 0;
+            status = st.map_err(|e| (4, e))?;
+            waited = wt;
+        }
         _ => {
             // the API's own combination: wait + read_to_end of both streams
+            // (order 5: with the ChildStdin still inside the Child)
             let wait = async {
                 let r = child.wait_with_output().await;
                 (r, t0.elapsed())
